@@ -215,6 +215,19 @@ def extract_law(L, weighted, shadow, res, tag):
         finally:
             sim.random = saved
         ch = [e for e in px.log if e[0] == 'choice']
+        dr = [e for e in px.log if e[0] == 'choices']
+        if dr and not ch:
+            # one direct categorical draw (random.choices): the log entry carries the law
+            bump(res, 'direct_draws_seen')
+            pop = tuple(dr[0][1])
+            n = len(pop)
+            thr = {}
+            for x, p in zip(pop, dr[0][2]):
+                thr[x] = thr.get(x, 0.0) + p
+            if not weighted and len(set(pop)) == len(pop) and any(abs(thr[x] - 1.0 / n) > 1e-12 for x in pop):
+                viol(res, tag + '|selection_probability_uniform', {'P_selected': [thr[x] for x in pop][:6]})
+                return False
+            break
         if not ch:
             res['inconclusive'] = 'choose_random made no observable choice'
             return False
